@@ -34,7 +34,7 @@ def run(tier, seed):
     standard_front(chk, 'Props/C07.v', needs_items=('rhs_entry', 'src_power', 'src_impedance'),
                    extra_vo=('Proofs/Linear.v', 'Model/Solve.v', 'Corr/LinDriver.v'))
     rng = random.Random(seed)
-    ncases = 48 if tier == 'quick' else 400
+    ncases = 48 if tier == 'quick' else 1600
     out, errs = stage_lin.run_stage(chk, rng, ncases)
     for r, o, mt in out:
         key = json.dumps(r['spec'], sort_keys=True)
@@ -43,6 +43,6 @@ def run(tier, seed):
     for r in errs:
         report_error(chk, 'lin', r)
     # the search oracle runs at reduced size in quick mode, at full size when a tie broke or in thorough mode
-    nor = 24 if (tier == 'quick' and not chk.broken) else (60 if tier == 'quick' else 300)
+    nor = 24 if (tier == 'quick' and not chk.broken) else (60 if tier == 'quick' else 1200)
     run_oracle(chk, rng, nor)
     return chk.finish()
